@@ -595,10 +595,12 @@ def match_f801(f: dict) -> bool:
             and sent == {k: v for k, v in patch.items() if k != 'status'}):
         return False
     if f['sig'] == 'incomplete':
-        server, expected = copy.deepcopy(obs.get('server')), obs.get('expected')
-        if not isinstance(server, dict) or 'status' not in server or 'status' in (expected or {}):
+        # the surviving status is the only difference (transformations may have edited the status on both sides)
+        server, expected = copy.deepcopy(obs.get('server')), copy.deepcopy(obs.get('expected'))
+        if not isinstance(server, dict) or not isinstance(expected, dict) or 'status' not in server:
             return False
         server.pop('status')
+        expected.pop('status', None)
         return server == expected
     return True
 
